@@ -458,11 +458,23 @@ impl<'a, 'b> G<'a, 'b> {
                 }
                 (Some(names), 1) => {
                     forms.push("oid:name(number)".into());
-                    format!("{}({a})", self.src.choose(names))
+                    if self.src.chance(20) {
+                        forms.push("oid:wellknown-label-with-own-number".into());
+                        format!("{}({a})", ["member-body", "standard", "question", "iso", "itu-t"][self.src.pick(5)])
+                    } else {
+                        format!("{}({a})", self.src.choose(names))
+                    }
                 }
                 (None, 1) => {
                     forms.push("oid:name(number)".into());
-                    let nm = ["ds", "org", "dod", "internet", "my-arc", "x9-57"][self.src.pick(6)];
+                    // in the name(number) form the identifier carries no meaning: a label that
+                    // happens to be a well-known arc name elsewhere must not change the number
+                    let nm = if self.src.chance(35) {
+                        forms.push("oid:wellknown-label-with-own-number".into());
+                        ["iso", "itu-t", "joint-iso-itu-t", "member-body", "standard", "recommendation", "question", "identified-organization", "registration-authority"][self.src.pick(9)]
+                    } else {
+                        ["ds", "org", "dod", "internet", "my-arc", "x9-57"][self.src.pick(6)]
+                    };
                     format!("{nm}({a})")
                 }
                 _ => {
